@@ -805,12 +805,16 @@ func liveServer() {
 			defer outer.Done()
 			port := pa.Get()
 			backPort := pa.Get()
-			srv, err := h.StartServerText(prop, fmt.Sprintf("bindAddr = \"127.0.0.1\"\nbindPort = %d\nauth.token = \"t17\"\ntransport.tcpMux = %v\nallowPorts = [{single=%d}]\n", port, mux, backPort))
+			scopes := ""
+			if !mux { // one of the two servers also verifies work connections: the refusal of a wrongly signed one is a reply like any other
+				scopes = "auth.additionalScopes = [\"NewWorkConns\"]\n"
+			}
+			srv, err := h.StartServerText(prop, fmt.Sprintf("bindAddr = \"127.0.0.1\"\nbindPort = %d\nauth.token = \"t17\"\n%stransport.tcpMux = %v\nallowPorts = [{single=%d}]\n", port, scopes, mux, backPort))
 			if err != nil {
 				fmt.Fprintln(os.Stderr, "server:", err)
 				os.Exit(h.ExitHarnessError)
 			}
-			honest, err := h.DialPeer(h.PeerOpts{ServerPort: port, TCPMux: mux, Token: "t17", AutoWork: true, WorkHandler: h.IdentBackend("H", "t17", false, false, nil)})
+			honest, err := h.DialPeer(h.PeerOpts{ServerPort: port, TCPMux: mux, Token: "t17", AutoWork: true, SignWorkConn: true, WorkHandler: h.IdentBackend("H", "t17", false, false, nil)})
 			if err != nil || !honest.LoggedIn() {
 				fmt.Fprintln(os.Stderr, "honest peer:", err)
 				os.Exit(h.ExitHarnessError)
@@ -1080,6 +1084,51 @@ func liveServer() {
 				}
 			} else {
 				run.Inconclusive("live: stcp proxy for the pipelining test was not registered")
+			}
+			// wire stability of the server's own answers to first messages: each refusal (and acceptance) is framed with
+			// the type byte the released protocol assigns to that answer — a peer that dispatches on the type byte
+			// (as msg.ReadMsg does) must find the message it expects
+			{
+				ts := time.Now().Unix()
+				type probe struct {
+					name string
+					first any
+					want byte // type byte of the answer ('\x00': the connection is just closed)
+				}
+				probes := []probe{
+					{"login-with-wrong-key", &msg.Login{Version: "0.62.1", Timestamp: ts, PrivilegeKey: "00000000000000000000000000000000"}, '1'},
+					{"visitor-for-unknown-proxy", &msg.NewVisitorConn{ProxyName: "no-such-proxy-17", Timestamp: ts, SignKey: h.AuthKey("sk17", ts)}, '3'},
+					{"visitor-with-wrong-secret", &msg.NewVisitorConn{ProxyName: "pipe17", Timestamp: ts, SignKey: h.AuthKey("wrong", ts)}, '3'},
+					{"visitor-admitted", &msg.NewVisitorConn{ProxyName: "pipe17", Timestamp: ts, SignKey: h.AuthKey("sk17", ts)}, '3'},
+				}
+				if !mux {
+					probes = append(probes, probe{"work-connection-with-wrong-key", &msg.NewWorkConn{RunID: honest.RunID, Timestamp: ts, PrivilegeKey: "00000000000000000000000000000000"}, 's'})
+				}
+				for _, pr := range probes {
+					wg.Add(1)
+					go func(pr probe) {
+						defer wg.Done()
+						sp, derr := h.DialPeer(h.PeerOpts{ServerPort: port, TCPMux: mux, Token: "t17", SkipLogin: true})
+						if derr != nil {
+							run.Inconclusive("live: dial failed")
+							return
+						}
+						defer sp.Close()
+						frame, _ := encode(pr.first)
+						_, _ = sp.Ctl.Write(frame)
+						_ = sp.Ctl.SetReadDeadline(time.Now().Add(20 * time.Second))
+						var tb [1]byte
+						if _, err := io.ReadFull(sp.Ctl, tb[:]); err != nil {
+							run.Violation("first-message-not-answered", "tcpMux=%v %s: the connection ended without an answer frame: %v", mux, pr.name, err)
+							return
+						}
+						run.Count("live_answer_type_bytes_checked", 1)
+						if tb[0] != pr.want {
+							run.Violation("answer-framed-with-wrong-type-byte", "tcpMux=%v %s: the answer is framed with type byte %q, the released protocol uses %q for it", mux, pr.name, tb[0], pr.want)
+						}
+						run.Distinct(fmt.Sprintf("live-answer|%v|%s", mux, pr.name))
+					}(pr)
+				}
 			}
 			// every registered message type, sent by a logged-in peer on its control connection: frps handles six of
 			// them and has no handler for the rest; whatever it does with the session, it stays up for the others
